@@ -2185,6 +2185,12 @@ def _validate_priority(stream_id, weight, depends_on):
     Checks the priority information a user wants to send on a stream, raising
     ProtocolError if it is not acceptable.
     """
+    # PRIORITY information is always about one particular stream.
+    if not 1 <= stream_id <= 2**31 - 1:
+        raise ProtocolError(
+            "Stream ID must be between 1 and 2**31-1, not %d" % stream_id
+        )
+
     # A stream may not depend on itself.
     if depends_on == stream_id:
         raise ProtocolError(
